@@ -4,162 +4,154 @@
   membership from CRModel/Interval.lean (theorems of C16 are reused).
 -/
 import CRProps.C16
+import CRProps.C06
 import CRModel.Goal
 namespace CR.Goal
 open CR.Iv
 
 /-- Speed the property prescribes: `hypot(vx, vy)` for point-mass states, the stored velocity otherwise. -/
-def specSpeed (s : St) : Option Rat :=
-  if s.vel.isSome ∧ s.velY.isSome then some s.speed else s.vel
+def specSpeed (F : Fns) (s : St) : Option Rat :=
+  match s.vel, s.velY with
+  | some vx, some vy => some (F.hyp vx vy)
+  | v, _ => v
 
-/-- Heading the property prescribes: the stored orientation, `atan2(vy, vx)` for point-mass states. -/
-def specHeading (s : St) : Option Rat :=
+/-- Heading the property prescribes: the stored orientation; `atan2(vy, vx)` for point-mass states. -/
+def specHeading (F : Fns) (s : St) : Option Rat :=
   match s.ori with
   | some θ => some θ
-  | none => if s.vel.isSome ∧ s.velY.isSome then some s.heading else none
+  | none =>
+    match s.vel, s.velY with
+    | some vx, some vy => some (F.at2 vy vx)
+    | _, _ => none
 
-/-- A goal state is satisfied in all the attributes it constrains. -/
-def Sat (τ ε : Rat) (g : GState) (s : St) (inPos : Bool) : Prop :=
-  Mem g.time s.t ∧ (g.hasPos = true → inPos = true) ∧
-  (∀ iv, g.ori = some iv → ∃ θ, specHeading s = some θ ∧ AMem τ ε iv θ) ∧
-  (∀ iv, g.vel = some iv → ∃ v, specSpeed s = some v ∧ Mem iv v)
+/-- A goal state is satisfied in all the attributes it constrains: time step in the time interval, position in the goal
+    shape (closed set, `Shape.contains`; a lanelet goal is the group of its lanelet polygons), heading in the angle interval
+    modulo τ, speed in the velocity interval. -/
+def Sat (F : Fns) (τ ε : Rat) (g : GState) (s : St) : Prop :=
+  Mem g.time s.t ∧
+  (∀ sh, g.pos = some sh → ∃ p, s.pos = some p ∧ sh.contains p = true) ∧
+  (∀ iv, g.ori = some iv → ∃ θ, specHeading F s = some θ ∧ AMem τ ε iv θ) ∧
+  (∀ iv, g.vel = some iv → ∃ v, specSpeed F s = some v ∧ Mem iv v)
 
 /-- Well-formed goal state: its intervals are constructed intervals. -/
 def WfG (g : GState) : Prop :=
   Valid g.time ∧ (∀ iv, g.ori = some iv → Valid iv) ∧ (∀ iv, g.vel = some iv → Valid iv)
 
-theorem C08_reachedOne_iff (τ ε : Rat) (hτ : 0 < τ) (hε0 : 0 ≤ ε) (hε : ε < τ)
-    (g : GState) (s : St) (inPos : Bool) (hw : WfG g) (hf : fieldsOk g s = true) :
-    ∃ b, reachedOne τ ε g s inPos = .ok b ∧ (b = true ↔ Sat τ ε g s inPos) := by
+theorem C08_reachedOne_iff (F : Fns) (τ ε : Rat) (hτ : 0 < τ) (hε0 : 0 ≤ ε) (hε : ε < τ)
+    (g : GState) (s : St) (hw : WfG g) (hf : fieldsOk g s = true) :
+    ∃ b, reachedOne F τ ε g s = .ok b ∧ (b = true ↔ Sat F τ ε g s) := by
   obtain ⟨_, hwo, _⟩ := hw
   unfold reachedOne
   simp only [hf, not_true_eq_false, if_false]
   refine ⟨_, rfl, ?_⟩
-  simp only [fieldsOk, Bool.and_eq_true, Bool.or_eq_true, Bool.not_eq_true'] at hf
+  simp only [fieldsOk, GState.hasPos, St.hasPos, Bool.and_eq_true, Bool.or_eq_true, Bool.not_eq_true'] at hf
   obtain ⟨⟨hp, ho⟩, hv⟩ := hf
   simp only [Bool.and_eq_true, Sat]
-  constructor
-  · rintro ⟨⟨⟨h1, h2⟩, h3⟩, h4⟩
-    refine ⟨(C16_contains_iff _ _).mp h1, ?_, ?_, ?_⟩
-    · intro hg
-      rcases hp with hp | hp
-      · rw [hg] at hp; cases hp
-      · simpa [hg, hp] using h2
-    · intro iv hiv
-      rw [hiv] at h3 ho
+  -- the four conjuncts one by one
+  have e1 : contains g.time s.t = true ↔ Mem g.time s.t := C16_contains_iff _ _
+  have e2 : (match g.pos, s.pos with | some sh, some p => sh.contains p | _, _ => true) = true ↔
+      (∀ sh, g.pos = some sh → ∃ p, s.pos = some p ∧ sh.contains p = true) := by
+    cases hgp : g.pos with
+    | none => simp
+    | some sh =>
+      rw [hgp] at hp
+      simp only [Option.isSome_some, Bool.true_eq_false, false_or] at hp
+      obtain ⟨p, hsp⟩ := Option.isSome_iff_exists.mp hp
+      simp [hsp]
+  have e3 : (match g.ori, oriOf F g s with | some iv, some θ => containsAngle τ ε iv θ | _, _ => true) = true ↔
+      (∀ iv, g.ori = some iv → ∃ θ, specHeading F s = some θ ∧ AMem τ ε iv θ) := by
+    cases hgo : g.ori with
+    | none => simp
+    | some iv =>
+      rw [hgo] at ho
       simp only [Option.isSome_some, Bool.true_eq_false, false_or] at ho
+      have hvi := hwo iv hgo
       cases hso : s.ori with
       | some θ =>
-        refine ⟨θ, by simp [specHeading, hso], ?_⟩
-        simp only [oriOf, hso] at h3
-        exact (C16_angle_contains_iff τ ε hτ hε0 hε iv (hwo iv hiv) θ).mp h3
+        simp only [oriOf, hso, specHeading, Option.some.injEq, exists_eq_left', forall_eq']
+        exact C16_angle_contains_iff τ ε hτ hε0 hε iv hvi θ
       | none =>
         rw [hso] at ho
         simp only [Option.isSome_none, Bool.false_eq_true, false_or] at ho
         have hh := ho
         simp only [harmonized, Bool.and_eq_true, Bool.or_eq_true] at hh
-        refine ⟨s.heading, by simp [specHeading, hso, hh.1.1, hh.1.2], ?_⟩
-        simp only [oriOf, hso, ho, if_true] at h3
-        exact (C16_angle_contains_iff τ ε hτ hε0 hε iv (hwo iv hiv) _).mp h3
-    · intro iv hiv
-      rw [hiv] at h4 hv
+        obtain ⟨vx, hvx⟩ := Option.isSome_iff_exists.mp hh.1.1
+        obtain ⟨vy, hvy⟩ := Option.isSome_iff_exists.mp hh.1.2
+        simp only [oriOf, hso, ho, if_true, specHeading, hvx, hvy, Option.getD_some, Option.some.injEq, exists_eq_left',
+          forall_eq']
+        exact C16_angle_contains_iff τ ε hτ hε0 hε iv hvi _
+  have e4 : (match g.vel, velOf F g s with | some iv, some v => contains iv v | _, _ => true) = true ↔
+      (∀ iv, g.vel = some iv → ∃ v, specSpeed F s = some v ∧ Mem iv v) := by
+    cases hgv : g.vel with
+    | none => simp
+    | some iv =>
+      rw [hgv] at hv
       simp only [Option.isSome_some, Bool.true_eq_false, false_or] at hv
-      by_cases hh : harmonized g s = true
-      · have hh' := hh
-        simp only [harmonized, Bool.and_eq_true] at hh'
-        refine ⟨s.speed, by simp [specSpeed, hh'.1.1, hh'.1.2], ?_⟩
-        simp only [velOf, hh, if_true] at h4
-        exact (C16_contains_iff _ _).mp h4
-      · obtain ⟨v, hv'⟩ := Option.isSome_iff_exists.mp hv
-        have hy : s.velY.isSome = false := by
-          simp only [harmonized, hv, hiv, Option.isSome_some, Bool.or_true, Bool.and_true, Bool.true_and] at hh
-          simpa using hh
-        refine ⟨v, by simp [specSpeed, hv', hy], ?_⟩
-        simp only [velOf, hh, hv'] at h4
-        exact (C16_contains_iff _ _).mp h4
+      obtain ⟨vx, hvx⟩ := Option.isSome_iff_exists.mp hv
+      cases hvy : s.velY with
+      | none =>
+        have hh : harmonized g s = false := by simp [harmonized, hvy]
+        simp only [velOf, hh, Bool.false_eq_true, if_false, hvx, hvy, specSpeed, Option.some.injEq, exists_eq_left', forall_eq']
+        exact C16_contains_iff _ _
+      | some vy =>
+        have hh : harmonized g s = true := by simp [harmonized, hvx, hvy, hgv]
+        simp only [velOf, hh, if_true, hvx, hvy, Option.getD_some, specSpeed, Option.some.injEq, exists_eq_left', forall_eq']
+        exact C16_contains_iff _ _
+  constructor
+  · rintro ⟨⟨⟨h1, h2⟩, h3⟩, h4⟩
+    exact ⟨e1.mp h1, e2.mp h2, e3.mp h3, e4.mp h4⟩
   · rintro ⟨h1, h2, h3, h4⟩
-    refine ⟨⟨⟨(C16_contains_iff _ _).mpr h1, ?_⟩, ?_⟩, ?_⟩
-    · by_cases hg : g.hasPos = true
-      · rcases hp with hp | hp
-        · rw [hg] at hp; cases hp
-        · simp [hg, hp, h2 hg]
-      · simp [hg]
-    · cases hgo : g.ori with
-      | none => simp
-      | some iv =>
-        obtain ⟨θ, hθ, hm⟩ := h3 iv hgo
-        rw [hgo] at ho
-        simp only [Option.isSome_some, Bool.true_eq_false, false_or] at ho
-        cases hso : s.ori with
-        | some θ' =>
-          simp only [specHeading, hso, Option.some.injEq] at hθ
-          subst hθ
-          simp only [oriOf, hso]
-          exact (C16_angle_contains_iff τ ε hτ hε0 hε iv (hwo iv hgo) _).mpr hm
-        | none =>
-          rw [hso] at ho
-          simp only [Option.isSome_none, Bool.false_eq_true, false_or] at ho
-          have hh := ho
-          simp only [harmonized, Bool.and_eq_true, Bool.or_eq_true] at hh
-          simp only [specHeading, hso, hh.1.1, hh.1.2, and_self, if_true, Option.some.injEq] at hθ
-          subst hθ
-          simp only [oriOf, hso, ho, if_true]
-          exact (C16_angle_contains_iff τ ε hτ hε0 hε iv (hwo iv hgo) _).mpr hm
-    · cases hgv : g.vel with
-      | none => simp
-      | some iv =>
-        obtain ⟨v, hv', hm⟩ := h4 iv hgv
-        rw [hgv] at hv
-        simp only [Option.isSome_some, Bool.true_eq_false, false_or] at hv
-        by_cases hh : harmonized g s = true
-        · have hh' := hh
-          simp only [harmonized, Bool.and_eq_true] at hh'
-          simp only [specSpeed, hh'.1.1, hh'.1.2, and_self, if_true, Option.some.injEq] at hv'
-          subst hv'
-          simp only [velOf, hh, if_true]
-          exact (C16_contains_iff _ _).mpr hm
-        · have hy : s.velY.isSome = false := by
-            simp only [harmonized, hv, hgv, Option.isSome_some, Bool.or_true, Bool.and_true, Bool.true_and] at hh
-            simpa using hh
-          simp only [specSpeed, hy, Bool.false_eq_true, and_false, if_false] at hv'
-          simp only [velOf, hh, hv']
-          exact (C16_contains_iff _ _).mpr hm
+    exact ⟨⟨⟨e1.mpr h1, e2.mpr h2⟩, e3.mpr h3⟩, e4.mpr h4⟩
 
 /-- C08 (a): a state reaches the goal region exactly when at least one goal state is satisfied in all
     the attributes it constrains; and the check does not fail on admissible inputs
-    (any number of goal states; any interval length below τ; values are rationals = ints and floats). -/
-theorem C08_isReached_iff (τ ε : Rat) (hτ : 0 < τ) (hε0 : 0 ≤ ε) (hε : ε < τ) (s : St) :
-    ∀ (goals : List (GState × Bool)), (∀ gp ∈ goals, WfG gp.1 ∧ fieldsOk gp.1 s = true) →
-    ∃ b, isReached τ ε goals s = .ok b ∧ (b = true ↔ ∃ gp ∈ goals, Sat τ ε gp.1 s gp.2)
+    (any number of goal states; any interval length below τ; values are rationals = ints and floats). For point-mass
+    states the speed is `hyp vx vy` and the heading `at2 vy vx` — for ANY functions `hyp`, `at2`: the model fixes the
+    arguments (a heading computed as `at2 vy (hyp vx vy)`, the defect repaired in 6d38b19, is a different term). -/
+theorem C08_isReached_iff (F : Fns) (τ ε : Rat) (hτ : 0 < τ) (hε0 : 0 ≤ ε) (hε : ε < τ) (s : St) :
+    ∀ (goals : List GState), (∀ g ∈ goals, WfG g ∧ fieldsOk g s = true) →
+    ∃ b, isReached F τ ε goals s = .ok b ∧ (b = true ↔ ∃ g ∈ goals, Sat F τ ε g s)
   | [], _ => ⟨false, rfl, by simp⟩
-  | (g, p) :: rest, h => by
-    obtain ⟨b1, hb1, hi1⟩ := C08_reachedOne_iff τ ε hτ hε0 hε g s p (h (g, p) (by simp)).1 (h (g, p) (by simp)).2
-    obtain ⟨b2, hb2, hi2⟩ := C08_isReached_iff τ ε hτ hε0 hε s rest (fun gp hgp => h gp (by simp [hgp]))
+  | g :: rest, h => by
+    obtain ⟨b1, hb1, hi1⟩ := C08_reachedOne_iff F τ ε hτ hε0 hε g s (h g (by simp)).1 (h g (by simp)).2
+    obtain ⟨b2, hb2, hi2⟩ := C08_isReached_iff F τ ε hτ hε0 hε s rest (fun g' hg => h g' (by simp [hg]))
     refine ⟨b1 || b2, by simp [isReached, hb1, hb2], ?_⟩
     simp only [Bool.or_eq_true, hi1, hi2, List.mem_cons, exists_eq_or_imp]
 
 /-- C08 (b): the only failure is the documented `ValueError` when a goal state constrains an
     attribute the state does not provide. -/
-theorem C08_isReached_error (τ ε : Rat) (s : St) :
-    ∀ (goals : List (GState × Bool)),
-    (∃ e, isReached τ ε goals s = .error e) ↔ ∃ gp ∈ goals, fieldsOk gp.1 s = false
+theorem C08_isReached_error (F : Fns) (τ ε : Rat) (s : St) :
+    ∀ (goals : List GState),
+    (∃ e, isReached F τ ε goals s = .error e) ↔ ∃ g ∈ goals, fieldsOk g s = false
   | [] => by simp [isReached]
-  | (g, p) :: rest => by
-    have ih := C08_isReached_error τ ε s rest
+  | g :: rest => by
+    have ih := C08_isReached_error F τ ε s rest
     by_cases hf : fieldsOk g s = true
-    · have : ∃ b, reachedOne τ ε g s p = .ok b := by
+    · have : ∃ b, reachedOne F τ ε g s = .ok b := by
         unfold reachedOne; simp only [hf, not_true_eq_false, if_false]; exact ⟨_, rfl⟩
       obtain ⟨b, hb⟩ := this
       simp only [isReached, hb, List.mem_cons, exists_eq_or_imp, hf, Bool.true_eq_false, false_or]
       rw [← ih]
-      cases hr : isReached τ ε rest s with
+      cases hr : isReached F τ ε rest s with
       | error e => simp
       | ok b' => simp
     · have hf' : fieldsOk g s = false := by simpa using hf
-      have : reachedOne τ ε g s p = .error .value := by
+      have : reachedOne F τ ε g s = .error .value := by
         unfold reachedOne; simp [hf']
       simp only [isReached, this, List.mem_cons, exists_eq_or_imp, hf', true_or, iff_true]
       exact ⟨_, rfl⟩
+
+/-- The position clause is about the closed set the shape denotes (C06): box at its pose, disc, vertex ring, union. -/
+theorem C08_position_denotes (p : CR.Geom.Pt) :
+    (∀ (l w : Rat) (ctr : CR.Geom.Pt) (c s : Rat), 0 < l → 0 < w → c * c + s * s = 1 →
+      (CR.Geom.Shape.prim (.rect l w ctr c s)).contains p = CR.Geom.inBox l w ctr c s p) ∧
+    (∀ (r : Rat) (ctr : CR.Geom.Pt), (CR.Geom.Shape.prim (.circ r ctr)).contains p = CR.Geom.inDisc ctr r p) ∧
+    (∀ vs : List CR.Geom.Pt, (CR.Geom.Shape.prim (.poly vs)).contains p = CR.Geom.inRing vs p) ∧
+    (∀ ss : List CR.Geom.Prim, (CR.Geom.Shape.group ss).contains p = true ↔ ∃ s ∈ ss, s.contains p = true) :=
+  ⟨fun l w ctr c s hl hw h => CR.Props.C06.C06_contains_denotes_rect l w ctr c s p hl hw h,
+   fun r ctr => rfl,
+   fun vs => CR.Props.C06.C06_contains_denotes_poly vs p,
+   fun ss => CR.Props.C06.C06_group_union ss p⟩
 
 /-! ### goal_reached over a trajectory -/
 
@@ -234,12 +226,16 @@ theorem C08_goalReached_iff (answers : List (Res Bool)) (hok : ∀ r ∈ answers
 
 /-! ### non-vacuity -/
 
-/-- a point-mass state (vx, vy) = (-1, 1/100) with heading parameter 3.13 against a goal orientation
-    interval [3, 33/10] and τ = 6.28: admissible, fields ok, and reached. -/
-example : fieldsOk ⟨⟨0, 5⟩, false, some ⟨3, 33/10⟩, none⟩ ⟨1, false, none, some (-1), some (1/100), 1, 313/100⟩ = true := by
+/-- a point-mass state (vx, vy) = (-1, 1/100) against a goal orientation interval [3, 33/10], τ = 6.28, with an `at2`
+    that answers 3.13 for (1/100, -1) (and something else for other arguments): admissible, fields ok, reached. -/
+def exF : Fns := ⟨fun _ _ => 1, fun y x => if y = 1/100 ∧ x = -1 then 313/100 else 0⟩
+example : fieldsOk ⟨⟨0, 5⟩, none, some ⟨3, 33/10⟩, none⟩ ⟨1, none, none, some (-1), some (1/100)⟩ = true := by
   decide +kernel
-example : isReached (628/100) 0 [(⟨⟨0, 5⟩, false, some ⟨3, 33/10⟩, none⟩, false)]
-    ⟨1, false, none, some (-1), some (1/100), 1, 313/100⟩ = .ok true := by decide +kernel
+example : isReached exF (628/100) 0 [⟨⟨0, 5⟩, none, some ⟨3, 33/10⟩, none⟩]
+    ⟨1, none, none, some (-1), some (1/100)⟩ = .ok true := by decide +kernel
+/-- a position goal: the unit square as a polygon, a state on its boundary. -/
+example : isReached exF (628/100) 0 [⟨⟨0, 5⟩, some (.prim (.poly [⟨0, 0⟩, ⟨1, 0⟩, ⟨1, 1⟩, ⟨0, 1⟩])), none, none⟩]
+    ⟨1, some ⟨1, 1/2⟩, some 0, some 2, none⟩ = .ok true := by decide +kernel
 example : goalReached [.ok false, .ok true, .ok true, .ok false] = .ok (true, 2) := by decide
 
 end CR.Goal
